@@ -92,8 +92,16 @@ type GDef struct {
 }
 type ElemSeg struct {
 	Off   CE
-	Funcs []int
+	Funcs []int  // function indices; -1 = ref.null func (the segment is then encoded with expressions)
 	ROff  uint64 // resolved offset (by design)
+	Tab   int    // table index (0: the short encodings)
+}
+
+// TabSlot: one entry of a module's table index space (live-frame family, table graphs: several tables per module)
+type TabSlot struct {
+	Obj *Obj   // the table by design identity (Owner, Idx = its index in the owner's index space)
+	Own bool   // defined here (imported otherwise: the import is in LMod.Imports, same relative order)
+	Exp string // the name it is exported under
 }
 type DataSeg struct {
 	Off   CE
@@ -138,6 +146,18 @@ type LMod struct {
 	NImpF, NImpG int
 	IsHost    bool  // live-frame family: the host module (never encoded)
 	DeclFuncs []int // functions named by ref.func (a declarative element segment)
+	// table index space of the live-frame family's table graphs (nil: at most one table, index 0, exported as "tab")
+	Tabs         []TabSlot
+	TIdx         int   // index of TObj (the shared table) in this module's table index space
+	PassiveFuncs []int // a passive element segment (emitted first: element index 0), the source of table.init
+}
+
+// callInd: call_indirect through table tab
+func callInd(ty, tab int) c.Ins {
+	if tab == 0 {
+		return c.ICallIndirect(ty)
+	}
+	return c.Ins{Bin: c.Cat(c.B(0x11), c.U32(uint32(ty)), c.U32(uint32(tab))), Coq: fmt.Sprintf("CallIndirect %d", ty)}
 }
 
 func w(t byte) int {
@@ -185,6 +205,19 @@ func memLimitsBin(min uint32, hasmax bool, max uint32, shared bool) []byte {
 		return c.Cat(c.B(3), c.U32(min), c.U32(max))
 	}
 	return limitsBin(min, hasmax, max)
+}
+
+// tabIdents: per table index, the table by design identity
+func (m *LMod) tabIdents() [][2]int {
+	o := [][2]int{}
+	if m.Tabs != nil {
+		for _, t := range m.Tabs {
+			o = append(o, [2]int{t.Obj.Owner, t.Obj.Idx})
+		}
+	} else if m.TObj != nil {
+		o = append(o, [2]int{m.TObj.Owner, m.TObj.Idx})
+	}
+	return o
 }
 
 func (m *LMod) HasMem() bool { return m.MObj != nil }
@@ -245,11 +278,20 @@ func (m *LMod) Encode() []byte {
 	for _, t := range m.View.Types {
 		mod.Types = append(mod.Types, c.FT(t.P, t.R))
 	}
-	if m.OwnTab {
-		mod.Tables = [][]byte{c.Cat(c.B(c.FuncRef), limitsBin(m.TMin, m.THasMax, m.TMax))}
-	}
-	if m.HasTab() {
-		mod.Exports = append(mod.Exports, c.Export("tab", 1, 0))
+	if m.Tabs != nil {
+		for i, t := range m.Tabs {
+			if t.Own {
+				mod.Tables = append(mod.Tables, c.Cat(c.B(c.FuncRef), limitsBin(t.Obj.Min, t.Obj.HasMax, t.Obj.Max)))
+			}
+			mod.Exports = append(mod.Exports, c.Export(t.Exp, 1, uint32(i)))
+		}
+	} else {
+		if m.OwnTab {
+			mod.Tables = [][]byte{c.Cat(c.B(c.FuncRef), limitsBin(m.TMin, m.THasMax, m.TMax))}
+		}
+		if m.HasTab() {
+			mod.Exports = append(mod.Exports, c.Export("tab", 1, 0))
+		}
 	}
 	if m.OwnMem {
 		mod.Mems = [][]byte{memLimitsBin(m.MMin, m.MHasMax, m.MMax, m.MShared)}
@@ -270,12 +312,34 @@ func (m *LMod) Encode() []byte {
 	if m.Start >= 0 {
 		mod.Start = c.U32(uint32(m.Start))
 	}
-	for _, e := range m.Elems {
+	if len(m.PassiveFuncs) > 0 {
 		fs := [][]byte{}
-		for _, f := range e.Funcs {
+		for _, f := range m.PassiveFuncs {
 			fs = append(fs, c.U32(uint32(f)))
 		}
-		mod.Elems = append(mod.Elems, c.Cat(c.U32(0), e.Off.bin(), c.Vec(fs...)))
+		mod.Elems = append(mod.Elems, c.Cat(c.U32(1), c.B(0), c.Vec(fs...)))
+	}
+	for _, e := range m.Elems {
+		fs, xs, null := [][]byte{}, [][]byte{}, false
+		for _, f := range e.Funcs {
+			if f < 0 {
+				null = true
+				xs = append(xs, c.B(0xd0, c.FuncRef, 0x0b)) // ref.null func
+				continue
+			}
+			fs = append(fs, c.U32(uint32(f)))
+			xs = append(xs, c.Cat(c.B(0xd2), c.U32(uint32(f)), c.B(0x0b))) // ref.func f
+		}
+		switch {
+		case null && e.Tab == 0: // (elem (offset) funcref (item ...)...)
+			mod.Elems = append(mod.Elems, c.Cat(c.U32(4), e.Off.bin(), c.Vec(xs...)))
+		case null:
+			mod.Elems = append(mod.Elems, c.Cat(c.U32(6), c.U32(uint32(e.Tab)), e.Off.bin(), c.B(c.FuncRef), c.Vec(xs...)))
+		case e.Tab != 0: // explicit table index, element kind funcref
+			mod.Elems = append(mod.Elems, c.Cat(c.U32(2), c.U32(uint32(e.Tab)), e.Off.bin(), c.B(0), c.Vec(fs...)))
+		default:
+			mod.Elems = append(mod.Elems, c.Cat(c.U32(0), e.Off.bin(), c.Vec(fs...)))
+		}
 	}
 	if len(m.DeclFuncs) > 0 {
 		fs := [][]byte{}
@@ -351,6 +415,9 @@ func (m *LMod) Coq() string {
 		fi := make([]string, len(e.Funcs))
 		for i, f := range e.Funcs {
 			fi[i] = fmt.Sprintf("Some %d%%nat", f)
+			if f < 0 {
+				fi[i] = "None"
+			}
 		}
 		es = append(es, fmt.Sprintf("(%s, [%s])", e.Off.coq(), strings.Join(fi, "; ")))
 	}
@@ -571,9 +638,9 @@ func (m *LMod) addKit(r *c.Rng, nleaf, nmix int) {
 	}
 	if m.HasTab() {
 		ty := m.View.TypeIdx(c.Sig{P: i32, R: i32})
-		add(&Fn{Sig: c.Sig{P: []byte{c.I32, c.I32}, R: i32}, Role: "calli", Body: []c.Ins{c.ILocalGet(1), c.ILocalGet(0), c.ICallIndirect(ty)}})
+		add(&Fn{Sig: c.Sig{P: []byte{c.I32, c.I32}, R: i32}, Role: "calli", Body: []c.Ins{c.ILocalGet(1), c.ILocalGet(0), callInd(ty, m.TIdx)}})
 		ty64 := m.View.TypeIdx(c.Sig{R: i64})
-		add(&Fn{Sig: c.Sig{P: i32, R: i64}, Role: "calli64", Body: []c.Ins{c.ILocalGet(0), c.ICallIndirect(ty64)}})
+		add(&Fn{Sig: c.Sig{P: i32, R: i64}, Role: "calli64", Body: []c.Ins{c.ILocalGet(0), callInd(ty64, m.TIdx)}})
 	}
 	for k := 0; k < m.NImpF; k++ {
 		s := m.FObj[k].Sig
@@ -625,7 +692,11 @@ func (m *LMod) finish() {
 	if m.MObj != nil {
 		m.Exports["mem"] = m.MObj
 	}
-	if m.TObj != nil {
+	if m.Tabs != nil {
+		for _, t := range m.Tabs {
+			m.Exports[t.Exp] = t.Obj
+		}
+	} else if m.TObj != nil {
 		m.Exports["tab"] = m.TObj
 	}
 }
